@@ -36,6 +36,12 @@ fn main() {
             core::worker_main(e.as_ref(), tier, shard, n, from, active);
         }
         "--one" => {
+            if let Some(secs) = std::env::var("MC_CPU_LIMIT").ok().and_then(|v| v.parse::<u64>().ok()) {
+                let lim = libc::rlimit { rlim_cur: secs, rlim_max: secs + 5 };
+                unsafe {
+                    libc::setrlimit(libc::RLIMIT_CPU, &lim);
+                }
+            }
             let e = engine(&args[2]).expect("engine");
             let tier = Tier::parse(&args[3]).unwrap();
             let active = parse_active(args.get(4).map(|s| s.as_str()).unwrap_or(""));
